@@ -126,27 +126,37 @@ def run(ctx):
     hazard_block(ctx)       # shapes whose reference value does not survive a float round trip: keep_dist modes must agree
     for _ in range(per):
         reps = ctx.rng.randint(1, 15); n = ctx.rng.randint(2, 4)
-        tv = [[ctx.rng.randint(0, 3) for _ in range(n)] for _ in range(reps)]
+        lo_v = ctx.rng.choice([0, -3])
+        tv = [[ctx.rng.randint(lo_v, 3) for _ in range(n)] for _ in range(reps)]
         ts = ctx.rng.choice([list(ctx.rng.choice(tv)), [max(r_[c] for r_ in tv) for c in range(n)], [min(r_[c] for r_ in tv) for c in range(n)]])
         kinds = [ctx.rng.choice(["np", "float", "int"]) for _ in range(n)]
+        # alternatives of westfall_young: one string for all tests, or a list with one entry per test (equal or mixed)
+        two = ctx.rng.choice([[False] * n, [True] * n, [ctx.rng.random() < 0.5 for _ in range(n)], [ctx.rng.random() < 0.5 for _ in range(n)]])
+        names = ["two-sided" if t_ else "greater" for t_ in two]
+        alts_arg = names[0] if (len(set(two)) == 1 and ctx.rng.random() < 0.6) else names
         for which in ("sim_npc", "westfall_young"):
             e, tests, _ = scripted_experiment(tv, ts, kinds)
             if which == "sim_npc":
                 r = guarded(npc.sim_npc, e, tests, combine="tippett", reps=reps)
                 raw = None if r[0] != "ok" else [r[1][2][c] for c in range(n)]
             else:
-                r = guarded(npc.westfall_young, e, tests, method=ctx.rng.choice(["minP", "maxT"]), alternatives="greater", reps=reps)
+                meth = ctx.rng.choice(["minP", "maxT"])
+                r = guarded(npc.westfall_young, e, tests, method=meth, alternatives=alts_arg, reps=reps)
                 raw = None if r[0] != "ok" else [r[1][1][c] for c in range(n)]
-            det = {"call": which, "observed": ts, "table": tv, "reps": reps, "return_kinds": kinds, "alternative": "greater"}
-            ctx.case((which, tuple(map(tuple, tv)), tuple(ts)), True); ctx.count(which + "-partial-p")
+            wy = which == "westfall_young"
+            det = {"call": which, "observed": ts, "table": tv, "reps": reps, "return_kinds": kinds, "alternative": (alts_arg if wy else "greater")}
+            if wy:
+                det["method"] = meth; ctx.count("westfall_young-alternatives-" + ("string" if isinstance(alts_arg, str) else ("mixed-list" if len(set(two)) > 1 else "list")))
+            ctx.case((which, tuple(map(tuple, tv)), tuple(ts), str(alts_arg) if wy else ""), True); ctx.count(which + "-partial-p")
             if raw is None:
                 det.update({"issue": "call failed", "returned": r[1:]}); ctx.violation("oracle", det, site=which); continue
             for c in range(n):
-                want = Fr(sum(1 for r_ in tv if r_[c] >= ts[c]) + 1, reps + 1)
+                val = (lambda v: abs(v)) if (wy and two[c]) else (lambda v: v)      # two-sided: absolute values; one-sided: signed
+                want = Fr(sum(1 for r_ in tv if val(r_[c]) >= val(ts[c])) + 1, reps + 1)
                 if not close(raw[c], want, rel=1e-12):
-                    det.update({"issue": f"partial/raw p-value of test {c} is not (count+1)/(reps+1)", "returned": [float(v) for v in raw], "expected": str(want)})
+                    det.update({"issue": f"partial/raw p-value of test {c} is not (count+1)/(reps+1) in the direction of its own alternative", "returned": [float(v) for v in raw], "expected": str(want)})
                     ctx.violation("oracle", det, site=which); break
-                ops.append(f"pupper|1|{reps}|{rat(ts[c])}|{rats([r_[c] for r_ in tv])}"); meta.append((det, float(raw[c]), which))
+                ops.append(f"pupper|1|{reps}|{rat(val(ts[c]))}|{rats([val(r_[c]) for r_ in tv])}"); meta.append((det, float(raw[c]), which))
     # the observed statistic is the statistic of the data exactly as given: recorded-draw replay against the model
     o2, m2 = rt.run_recorded(ctx, list(rt.FUNCS), ctx.n(30, 500))
     outs = run_model(ops + o2)
